@@ -30,7 +30,8 @@ def main():
     for p in props:
         pid = p["id"]
         mod = ROOT / "pbt" / "props" / f"{pid.lower()}.py"
-        if mod.exists() and pid not in na_reasons:
+        ready = set((ROOT / "tools" / "ready.txt").read_text().split())
+        if mod.exists() and pid not in na_reasons and pid in ready:
             c = consts(mod)
             checks.append({
                 "property_id": pid,
